@@ -630,7 +630,7 @@ func (vc *FuncVC) trCall(e *env, n *ECall) Term {
 			return not(app("Bool", "select", al, args[0]))
 		case "unboxstr": // unboxstr(x): the string held by an interface value of dynamic type string
 			return vc.unboxPayload(app("Int", "i!pl", args[0]), "String")
-		case "functag": // functag("pkg.T"): type tag of func(context.Context, pkg.T) error
+		case "functag", "predtag": // functag("pkg.T"): type tag of func(context.Context, pkg.T) error; predtag: ... (bool, error)
 			if s, ok := n.Args[0].(*EStr); ok {
 				t := vc.eng.typeByName(s.V)
 				ctx := vc.eng.typeByName("context.Context")
@@ -638,9 +638,12 @@ func (vc *FuncVC) trCall(e *env, n *ECall) Term {
 					return e.fail("unknown type %q", s.V)
 				}
 				errT := types.Universe.Lookup("error").Type()
+				res := types.NewTuple(types.NewVar(0, nil, "", errT))
+				if f.Name == "predtag" {
+					res = types.NewTuple(types.NewVar(0, nil, "", types.Typ[types.Bool]), types.NewVar(0, nil, "", errT))
+				}
 				sig := types.NewSignatureType(nil, nil, nil,
-					types.NewTuple(types.NewVar(0, nil, "", ctx), types.NewVar(0, nil, "", t)),
-					types.NewTuple(types.NewVar(0, nil, "", errT)), false)
+					types.NewTuple(types.NewVar(0, nil, "", ctx), types.NewVar(0, nil, "", t)), res, false)
 				return intLit(int64(vc.ss.typeTag(sig)))
 			}
 		case "isnil":
